@@ -179,7 +179,23 @@ template <class C> Verdict check_fault(const Plan& plan, Stats& st, const std::s
     return none;
 }
 
-template <class C> Verdict check_C14(const Plan& plan, Stats& st) { return check_fault<C>(plan, st, "C14"); }
+template <class C> Verdict check_C14(const Plan& plan, Stats& st) {
+    if (!plan.extra.geti("all_targets", 0)) return check_fault<C>(plan, st, "C14");
+    // thorough tier: sweep every allocating call of the history in turn, not only the chosen target
+    bool first = true;
+    for (int t = 0; t < (int)plan.ops.size(); t++) {
+        if (!is_alloc_target(plan.ops[(size_t)t].kind)) continue;
+        Plan q = plan;
+        q.extra = J::obj(); q.extra.set("subset_trials", plan.extra.geti("subset_trials", 0));
+        for (auto& o : q.ops) { o.fail_k = 0; o.fail_mode = 0; o.fail_set = 0; }
+        q.ops[(size_t)t].fail_k = K_ALL; q.target = t;
+        Verdict d = check_fault<C>(q, st, "C14");
+        if (!first) st.runs--;
+        first = false;
+        if (d.violated) return d;
+    }
+    return Verdict();
+}
 
 // ================================================================================================ C13
 template <class C> Verdict check_C13(const Plan& plan, Stats& st) {
